@@ -39,6 +39,10 @@ def check_answer(im, req, recurse, strip, eqs, bad, j):
     defs = {}
     for eq in m.equations:
         defs[eq.lhs] = eq
+    if any(not hasattr(eq, 'lhs') for eq in eqs):
+        bad.append(('get_equations_for returned something that is not an equation: %r'
+                    % ([str(eq) for eq in eqs if not hasattr(eq, 'lhs')],), {'op_index': j}))
+        return
     lhss = [eq.lhs for eq in eqs]
     if len(set(lhss)) != len(lhss):
         bad.append(('get_equations_for returned an equation twice', {'op_index': j}))
